@@ -274,6 +274,8 @@ pub struct GenCfg {
     /// references, SEQUENCE OF values whose element type is missing, unresolvable selection
     /// types): C11 compares the multiset of warnings too
     pub warnful: bool,
+    /// SEQUENCE types may inherit members with COMPONENTS OF from other local SEQUENCE types
+    pub components_of: bool,
 }
 
 impl GenCfg {
@@ -296,6 +298,7 @@ impl GenCfg {
             echo_inner_names: false,
             recursion_bias: false,
             warnful: false,
+            components_of: false,
         }
     }
 }
@@ -741,6 +744,25 @@ impl<'a> G<'a> {
             comps.push(c);
         }
         let _ = (any_tag, all_tag);
+        if kw == "SEQUENCE" && depth == 0 && self.cfg.components_of {
+            let my_rank = m.ranks.get(&format!("{}.{}", m.modname, owner)).copied().unwrap_or(0);
+            let bases: Vec<String> = m
+                .types
+                .iter()
+                .filter(|t| t.cat == "seq" && !t.name.is_empty() && t.name != owner && m.ranks.get(&format!("{}.{}", m.modname, t.name)).copied().unwrap_or(0) > my_rank)
+                .map(|t| t.name.clone())
+                .collect();
+            let mut picked: Vec<String> = vec![];
+            for b in bases {
+                if picked.len() < 3 && self.rng.chance(1, 2) {
+                    picked.push(b);
+                }
+            }
+            for b in picked {
+                refs.push(b.clone());
+                comps.push(format!("COMPONENTS OF {b}"));
+            }
+        }
         // assemble with extension marker / groups
         let mut i = 0;
         while i < comps.len() {
@@ -804,6 +826,13 @@ impl<'a> G<'a> {
     }
 }
 
+/// A value assignment `v T ::= { .. }` whose governing type is spelled in capitals only reads
+/// as an information object of class T (X.681) and is parsed as such; values are therefore
+/// only governed by type names that contain a lower-case letter.
+fn can_govern_values(name: &str) -> bool {
+    name.chars().any(|c| c.is_lowercase())
+}
+
 fn oid_for(idx: usize) -> String {
     format!("{{ iso org(3) dsim(999) m{idx}({idx}) }}")
 }
@@ -840,7 +869,7 @@ pub fn generate(rng: &mut Rng, cfg: &GenCfg) -> ModuleSet {
                 value_names.push(format!("{}-v{}", vstem.trim_end_matches('-'), value_names.len()));
                 order.push((false, value_names.len() - 1));
             } else {
-                let style = rng.below(5);
+                let style = rng.below(6);
                 let i = type_names.len();
                 let nm = match style {
                     // a name that EXTENDS an earlier name of the module (Ratio / RatioUnit, Cell /
@@ -850,12 +879,18 @@ pub fn generate(rng: &mut Rng, cfg: &GenCfg) -> ModuleSet {
                         let cand = format!("{prev}{}", ["Unit", "X", "-Ext", "s", "0"][rng.below(5)]);
                         if type_names.contains(&cand) { format!("{stem}Z{i}") } else { cand }
                     }
+                    // capitals, digits and hyphens only (E164, T1, ID2 are legal type references)
+                    5 => format!("{}{}", stem.to_uppercase().trim_end_matches('-'), i + 1),
                     0 => format!("{stem}{i}"),
                     1 => format!("{stem}-Type{i}"),
                     2 => format!("{stem}T{i}x"),
                     _ => format!("{stem}-{i}-Rec"),
                 };
-                type_names.push(nm.replace("--", "-"));
+                let mut nm = nm.replace("--", "-");
+                if type_names.contains(&nm) {
+                    nm = format!("{nm}Z{i}");
+                }
+                type_names.push(nm);
                 order.push((true, i));
             }
         }
@@ -986,7 +1021,7 @@ pub fn generate(rng: &mut Rng, cfg: &GenCfg) -> ModuleSet {
                 let cands: Vec<TypeInfo> = ctx
                     .types
                     .iter()
-                    .filter(|t| t.cat == "int" && t.range.is_some_and(|(lo, hi)| lo <= v.int && v.int <= hi))
+                    .filter(|t| t.cat == "int" && can_govern_values(&t.name) && t.range.is_some_and(|(lo, hi)| lo <= v.int && v.int <= hi))
                     .cloned()
                     .collect();
                 // ... or by an imported integer type (the value's governing type then lives in a
@@ -994,7 +1029,7 @@ pub fn generate(rng: &mut Rng, cfg: &GenCfg) -> ModuleSet {
                 let imported_cands: Vec<(String, TypeInfo)> = ctx
                     .imported_types
                     .iter()
-                    .filter(|(_, t)| t.cat == "int" && t.range.is_some_and(|(lo, hi)| lo <= v.int && v.int <= hi))
+                    .filter(|(_, t)| t.cat == "int" && can_govern_values(&t.name) && t.range.is_some_and(|(lo, hi)| lo <= v.int && v.int <= hi))
                     .cloned()
                     .collect();
                 let roll = if cfg.value_import_bias { g.rng.below(6) } else { g.rng.below(10) };
@@ -1026,7 +1061,7 @@ pub fn generate(rng: &mut Rng, cfg: &GenCfg) -> ModuleSet {
                     7 => format!("{vname} SEQUENCE OF INTEGER ::= {{ {}, {} }}", g.rng.below(50), g.rng.below(50)),
                     8 => format!("{vname} SET OF BOOLEAN ::= {{ TRUE, FALSE }}"),
                     9 => {
-                        let bits: Vec<TypeInfo> = ctx.types.iter().filter(|t| t.cat == "bits" && !t.named_bits.is_empty()).cloned().collect();
+                        let bits: Vec<TypeInfo> = ctx.types.iter().filter(|t| t.cat == "bits" && !t.named_bits.is_empty() && can_govern_values(&t.name)).cloned().collect();
                         if !bits.is_empty() {
                             let t = &bits[g.rng.below(bits.len())];
                             refs.push(t.name.clone());
@@ -1041,7 +1076,7 @@ pub fn generate(rng: &mut Rng, cfg: &GenCfg) -> ModuleSet {
                     3 => format!("{vname} OBJECT IDENTIFIER ::= {{ {} {} {} }}", ["iso(1) org(3)", "1 3", "joint-iso-itu-t(2) ds(5)", "2 5"][g.rng.below(4)], g.rng.below(50), g.rng.below(50)),
                     4 => format!("{vname} BIT STRING ::= '{}'B", ["1010", "0", "11110000", "1"][g.rng.below(4)]),
                     5 => {
-                        let enums: Vec<TypeInfo> = ctx.types.iter().filter(|t| t.cat == "enum" && !t.enumerals.is_empty()).cloned().collect();
+                        let enums: Vec<TypeInfo> = ctx.types.iter().filter(|t| t.cat == "enum" && !t.enumerals.is_empty() && can_govern_values(&t.name)).cloned().collect();
                         if !enums.is_empty() {
                             let t = &enums[g.rng.below(enums.len())];
                             refs.push(t.name.clone());
@@ -1065,6 +1100,20 @@ pub fn generate(rng: &mut Rng, cfg: &GenCfg) -> ModuleSet {
                     }
                 }
             }
+            if g.rng.chance(1, 4) {
+                // a class whose fixed-type field is governed by a NAMED local type, two objects of it
+                // and an object set (documented as producing no output)
+                let up = p.stem.to_uppercase().trim_end_matches('-').to_string();
+                let st = p.stem.trim_end_matches('-').to_string();
+                let lo = st.to_lowercase();
+                let code_ty = format!("{st}Code");
+                assigns.push(Assign { name: code_ty.clone(), kind: AKind::Type, text: format!("{code_ty} ::= INTEGER (0..255)"), refs: vec![], comment: String::new() });
+                let cname = format!("{up}-OPS");
+                assigns.push(Assign { name: cname.clone(), kind: AKind::Class, text: format!("{cname} ::= CLASS {{ &code {code_ty} UNIQUE, &Type OPTIONAL }} WITH SYNTAX {{ CODE &code [TYPE &Type] }}"), refs: vec![code_ty.clone()], comment: String::new() });
+                assigns.push(Assign { name: format!("{lo}-op1"), kind: AKind::Class, text: format!("{lo}-op1 {cname} ::= {{ CODE 5 }}"), refs: vec![cname.clone()], comment: String::new() });
+                assigns.push(Assign { name: format!("{lo}-op2"), kind: AKind::Class, text: format!("{lo}-op2 {cname} ::= {{ CODE 6 TYPE BOOLEAN }}"), refs: vec![cname.clone()], comment: String::new() });
+                assigns.push(Assign { name: format!("{st}OpSet"), kind: AKind::Class, text: format!("{st}OpSet {cname} ::= {{ {lo}-op1 | {lo}-op2, ... }}"), refs: vec![cname.clone(), format!("{lo}-op1"), format!("{lo}-op2")], comment: String::new() });
+            }
             if g.rng.chance(1, 3) {
                 let cname = format!("{}-CLASS", p.stem.to_uppercase().trim_end_matches('-'));
                 assigns.push(Assign {
@@ -1084,6 +1133,18 @@ pub fn generate(rng: &mut Rng, cfg: &GenCfg) -> ModuleSet {
                     refs: vec![],
                     comment: String::new(),
                 });
+            }
+        }
+        if cfg.values && g.rng.chance(1, 6) {
+            // a value whose name differs from a type's name only in the case of its first letter
+            // (version / Version): both mangle towards the same words
+            let tys: Vec<String> = assigns.iter().filter(|a| a.kind == AKind::Type).map(|a| a.name.clone()).collect();
+            if let Some(tn) = tys.iter().find(|t| t.as_str() != "Shared-Name") {
+                let mut c = tn.chars();
+                let vname: String = c.next().map(|f| f.to_lowercase().collect::<String>() + c.as_str()).unwrap_or_default();
+                if vname != *tn && !assigns.iter().any(|a| a.name == vname) {
+                    assigns.push(Assign { name: vname.clone(), kind: AKind::Value, text: format!("{vname} INTEGER ::= {}", g.rng.below(1000)), refs: vec![], comment: String::new() });
+                }
             }
         }
         if cfg.warnful {
